@@ -893,13 +893,25 @@ class Fetcher:
                     # preferred replica for this partition, matching the
                     # Java consumer. The next fetch will go to the leader
                     # until the broker hints another follower.
-                    self._preferred_read_replica.pop(tp, None)
+                    cached = self._preferred_read_replica.pop(tp, None)
                     if error_type in (
                         Errors.NotLeaderForPartitionError,
                         Errors.UnknownTopicOrPartitionError,
                     ):
                         self._client.force_metadata_update()
                     elif error_type is Errors.OffsetOutOfRangeError:
+                        if cached is not None and cached[0] == node_id:
+                            # The follower's log range can differ from the
+                            # leader's. Like the Java consumer, retry on the
+                            # leader before giving up the position.
+                            log.debug(
+                                "Fetch offset %s is out of range for partition %s"
+                                " on read replica %s, retrying on the leader",
+                                fetch_offset,
+                                tp,
+                                node_id,
+                            )
+                            continue
                         if self._default_reset_strategy != OffsetResetStrategy.NONE:
                             tp_state.await_reset(self._default_reset_strategy)
                         else:
